@@ -29,6 +29,21 @@ fn gen_text(rng: &mut Rng, keys: &[String]) -> String {
     }
 }
 
+/// Texts for worlds whose regex provider runs with its debug checks on (a pattern with an alternative that is not
+/// anchored): runs of 64 and more letters, so that (a) an analysis fails at a position where another provider has
+/// already created a long word, and (b) a later text has a regex word of the same long length
+fn long_run_family(rng: &mut Rng) -> String {
+    let l = *rng.pick(&[64usize, 72]);
+    match rng.below(4) {
+        // the letters é are a class run of l characters that the pattern does not match; it matches "ab" further on
+        0 => format!("{}。ab", "é".repeat(l)),
+        1 => format!("{}#ab", "É".repeat(l)),
+        // the pattern matches l characters, the class run is longer
+        2 => format!("{}{}", "a".repeat(l), "é".repeat(10)),
+        _ => format!("{}{}", "a".repeat(l), "ø".repeat(3)),
+    }
+}
+
 /// what is compared for one analysis: boundaries, word ids, requested fields
 fn snapshot(t: &Tok, bits: u32) -> Result<Vec<(usize, usize, u32, Vec<String>)>, String> {
     snapshot_list(&t.list, bits)
@@ -130,6 +145,124 @@ fn truncated_image_histories(rep: &mut Report, wi: u64, world: &World, rng: &mut
     }
 }
 
+/// A dictionary view whose only input-text plugin queues edits and then fails on a trigger character: the failure
+/// happens while the text is being rewritten, with edits pending. (No bundled plugin ever fails; plugins loaded from
+/// shared objects may.)
+struct FaultyView<'a> {
+    inner: &'a sudachi::dic::dictionary::JapaneseDictionary,
+    plugins: Vec<Box<dyn sudachi::plugin::input_text::InputTextPlugin + Sync + Send>>,
+}
+
+struct FailingPlugin {
+    from: char,
+    to: String,
+    trigger: char,
+}
+
+impl sudachi::plugin::input_text::InputTextPlugin for FailingPlugin {
+    fn set_up(&mut self, _s: &Value, _c: &sudachi::config::Config, _g: &sudachi::dic::grammar::Grammar) -> sudachi::error::SudachiResult<()> {
+        Ok(())
+    }
+    fn rewrite_impl<'a>(&'a self, input: &sudachi::input_text::InputBuffer, mut edit: sudachi::input_text::InputEditor<'a>) -> sudachi::error::SudachiResult<sudachi::input_text::InputEditor<'a>> {
+        for (i, c) in input.current().char_indices() {
+            if c == self.from {
+                edit.replace_ref(i..i + c.len_utf8(), &self.to);
+            } else if c == self.trigger {
+                return Err(sudachi::error::SudachiError::InvalidDataFormat(i, "refused character".to_string()));
+            }
+        }
+        Ok(edit)
+    }
+}
+
+impl<'a> sudachi::analysis::stateless_tokenizer::DictionaryAccess for FaultyView<'a> {
+    fn grammar(&self) -> &sudachi::dic::grammar::Grammar<'_> {
+        self.inner.grammar()
+    }
+    fn lexicon(&self) -> &sudachi::dic::lexicon_set::LexiconSet<'_> {
+        self.inner.lexicon()
+    }
+    fn input_text_plugins(&self) -> &[Box<dyn sudachi::plugin::input_text::InputTextPlugin + Sync + Send>] {
+        &self.plugins
+    }
+    fn oov_provider_plugins(&self) -> &[Box<dyn sudachi::plugin::oov::OovProviderPlugin + Sync + Send>] {
+        self.inner.oov_provider_plugins()
+    }
+    fn path_rewrite_plugins(&self) -> &[Box<dyn sudachi::plugin::path_rewrite::PathRewritePlugin + Sync + Send>] {
+        self.inner.path_rewrite_plugins()
+    }
+}
+
+fn faulty_plugin_histories(rep: &mut Report, wi: u64, world: &World, rng: &mut Rng) {
+    use sudachi::analysis::stateful_tokenizer::StatefulTokenizer;
+    let keys = world.keys();
+    let long_key = keys.iter().filter(|k| !k.is_empty() && !k.contains('x') && !k.contains('\u{7f}')).max_by_key(|k| k.len()).cloned().unwrap_or_else(|| "京都".to_string());
+    let view = FaultyView { inner: &world.dict, plugins: vec![Box::new(FailingPlugin { from: 'x', to: long_key.clone(), trigger: '\u{7f}' })] };
+    type Snap = Vec<(usize, usize, u32, String, String)>;
+    let run = |tok: &mut StatefulTokenizer<&FaultyView>, list: &mut MorphemeList<&FaultyView>, text: &str| -> Result<Snap, String> {
+        tok.reset().push_str(text);
+        tok.do_tokenize().map_err(|e| format!("{:?}", e))?;
+        list.collect_results(tok).map_err(|e| format!("{:?}", e))?;
+        Ok(list.iter().map(|m| (m.begin(), m.end(), m.word_id().as_raw(), m.surface().to_string(), m.normalized_form().to_string())).collect())
+    };
+    for _ in 0..3 {
+        let mode = MODES[rng.below(3)];
+        let mut live = StatefulTokenizer::new(&view, mode);
+        let mut live_list = MorphemeList::empty(&view);
+        let mut history: Vec<Value> = vec![];
+        for _ in 0..10 {
+            let fail_now = rng.chance(1, 2);
+            let mut text = textgen::text_from_keys(rng, &keys, 4);
+            if fail_now {
+                // edits are queued for the x's before the refused character is met
+                text = format!("{}x{}x\u{7f}{}", rng.pick(&keys), text, rng.pick(&keys));
+            } else if rng.chance(1, 2) {
+                text.push('x');
+            }
+            history.push(json!({"op": if fail_now { "analyse a text that the input-text plugin refuses after queuing edits" } else { "analyse" }, "text": clip(&text, 80)}));
+            match guard(|| run(&mut live, &mut live_list, &text)) {
+                Ok(Ok(_)) => {}
+                Ok(Err(_)) => rep.count("analyses_refused_by_an_input_text_plugin_with_edits_pending", fail_now as u64),
+                Err(p) => {
+                    rep.skipped_panic(&p, json!({"history": history}));
+                    return;
+                }
+            }
+            let plen = 1 + rng.below(5);
+            let mut probe = textgen::text_from_keys(rng, &keys, plen);
+            if rng.chance(1, 3) {
+                probe.insert(0, 'x');
+            }
+            rep.eval();
+            let mut fresh = StatefulTokenizer::new(&view, mode);
+            let mut fresh_list = MorphemeList::empty(&view);
+            let scen = || json!({"world_index": wi, "input_text_plugin": format!("replaces 'x' by {:?}, fails at U+007F", long_key), "history": history, "probe": probe, "mode": mode_name(mode), "world": world.describe(true)});
+            let rl = guard(|| run(&mut live, &mut live_list, &probe));
+            let rf = guard(|| run(&mut fresh, &mut fresh_list, &probe));
+            match (rl, rf) {
+                (Ok(Ok(a)), Ok(Ok(b))) => {
+                    rep.count("probes_compared_after_input_plugin_failures", 1);
+                    if a != b {
+                        let k = a.iter().zip(b.iter()).position(|(x, y)| x != y).unwrap_or(a.len().min(b.len()));
+                        rep.violation("history_dependence", "probe", &format!("after an input-text plugin failed with edits pending, morpheme {} differs: long-lived {:?} vs fresh {:?} ({} vs {} morphemes)", k, a.get(k), b.get(k), a.len(), b.len()), "", scen());
+                        return;
+                    }
+                }
+                (Ok(Err(_)), Ok(Err(_))) => {}
+                (Err(p), Ok(_)) => {
+                    rep.violation("history_panic", &p.site, &format!("after an input-text plugin failed with edits pending, the probe panics on the long-lived tokenizer but not on a fresh one: {}", p.msg), "", scen());
+                    return;
+                }
+                (_, Err(p)) => rep.skipped_panic(&p, json!({"probe": probe})),
+                (Ok(a), Ok(b)) => {
+                    rep.violation("outcome_differs", "do_tokenize", &format!("after an input-text plugin failed with edits pending: long-lived tokenizer {:?}, fresh tokenizer {:?}", a.err(), b.err()), "", scen());
+                    return;
+                }
+            }
+        }
+    }
+}
+
 pub fn run(ctx: &Ctx, rep: &mut Report) {
     let n_worlds = ctx.n(240, 12000);
     for wi in ctx.indices(n_worlds) {
@@ -143,13 +276,34 @@ pub fn run(ctx: &Ctx, rep: &mut Report) {
         // every sixth world has no fallback provider: an analysis may then fail for lack of candidates, which is one more kind
         // of failed analysis that must leave the tokenizer usable
         let no_fallback = wi % 6 == 5;
-        let world: World = match guard(|| crate::scen::build_world_tweak(&mut rng, &dopts, wi % 3 == 0, Place::Owned, |_r, p| {
+        let regex_dbg = wi % 6 == 4;
+        let world: World = match guard(|| {
+            let matrix = crate::dictgen::gen_matrix(&mut rng, &dopts);
+            let mut sys = crate::dictgen::gen_system(&mut rng, &dopts, &matrix);
+            if regex_dbg {
+                // cheap words for the tails of the long-run texts, so that the path through the regex word can win
+                let nid = matrix.nid() as i64;
+                let pool = crate::dictgen::pos_pool();
+                for k in ["éééééééééé", "øøø"] {
+                    sys.entries.push(crate::model::Entry::simple(k, rng.range(0, nid - 1) as i16, rng.range(0, nid - 1) as i16, -6000, &pool[0]));
+                }
+            }
+            let mut plugins = crate::scen::PluginOpts::random(&mut rng, &matrix, wi % 3 == 0);
+            (|_r: &mut Rng, p: &mut crate::scen::PluginOpts| {
             if no_fallback {
                 p.no_fallback = true;
                 p.mecab = false;
                 p.regex = Some(("[a-z]+".to_string(), true, 32));
             }
-        })) {
+            if regex_dbg {
+                // provider errors in the middle of lattice construction are one more kind of failed analysis
+                p.mecab = true;
+                p.regex = Some(("[0-9]+|[a-z]+".to_string(), true, 100));
+                p.regex_debug = true;
+            }
+            })(&mut rng, &mut plugins);
+            crate::scen::build_world_from(&mut rng, &dopts, matrix, sys, plugins, Place::Owned)
+        }) {
             Ok(Ok(w)) => w,
             Ok(Err(e)) => {
                 rep.count("worlds_rejected", 1);
@@ -162,10 +316,16 @@ pub fn run(ctx: &Ctx, rep: &mut Report) {
             }
         };
         rep.count("worlds", 1);
+        if regex_dbg {
+            rep.count("worlds_with_regex_debug_errors_possible", 1);
+        }
         let has_pr = world.plugins.join_numeric.is_some() || world.plugins.join_katakana.is_some();
         let keys = world.keys();
         if wi % 2 == 1 {
             truncated_image_histories(rep, wi, &world, &mut rng);
+        }
+        if wi % 4 == 2 {
+            faulty_plugin_histories(rep, wi, &world, &mut rng);
         }
         for hi in 0..6 {
             // one history on a long-lived tokenizer / list pair
@@ -302,11 +462,16 @@ pub fn run(ctx: &Ctx, rep: &mut Report) {
                         }
                     }
                     _ => {
-                        let text = gen_text(&mut rng, &keys);
+                        let text = if regex_dbg && rng.chance(1, 2) { long_run_family(&mut rng) } else { gen_text(&mut rng, &keys) };
                         history.push(json!({"op": "analyse", "text": clip(&text, 80), "bytes": text.len()}));
                         match guard(|| live.run(&text)) {
                             Ok(Ok(())) => rep.count("history_analyses_ok", 1),
-                            Ok(Err(_)) => rep.count("history_analyses_rejected", 1),
+                            Ok(Err(e)) => {
+                                rep.count("history_analyses_rejected", 1);
+                                if regex_dbg && matches!(e, sudachi::error::SudachiError::InvalidDataFormat(..)) {
+                                    rep.count("history_analyses_failed_by_a_provider_error", 1);
+                                }
+                            }
                             Err(p) => {
                                 rep.skipped_panic(&p, json!({"history": history}));
                                 ok_history = false;
@@ -318,7 +483,7 @@ pub fn run(ctx: &Ctx, rep: &mut Report) {
                 rep.count("history_operations", 1);
                 // probe after every operation
                 let plen = 1 + rng.below(10);
-                let probe = textgen::text_from_keys(&mut rng, &keys, plen);
+                let probe = if regex_dbg && rng.chance(1, 2) { long_run_family(&mut rng) } else { textgen::text_from_keys(&mut rng, &keys, plen) };
                 rep.eval();
                 let mut fresh = Tok::new(&world.dict, mode);
                 fresh.tok.set_subset(subset_of(bits));
